@@ -364,6 +364,22 @@ func genSchedule(r *Rng, doc []byte, limit int, deliveryPoints []int) ([]int, st
 		}
 		ops = cutsToOps(cuts, limit)
 	}
+	// one long burst of consecutive empty reads (io.Reader discourages but
+	// allows them; a consumer must not take any number of them for the end)
+	if r.Chance(0.04) {
+		at := 0
+		if len(ops) > 0 {
+			at = r.Intn(len(ops) + 1)
+		}
+		burst := make([]int, []int{99, 100, 101, 128, 257}[r.Intn(5)])
+		out := append([]int{}, ops[:at]...)
+		out = append(out, burst...)
+		if at == len(ops) && len(ops) == 0 && limit > 0 {
+			out = append(out, limit)
+		}
+		ops = append(out, ops[at:]...)
+		fam += "+burst"
+	}
 	// empty reads
 	if p := []float64{0, 0, 0.05, 0.15, 0.30}[r.Intn(5)]; p > 0 {
 		var out []int
